@@ -52,6 +52,10 @@ def lattice_program(f):
     classes = []
     nn = f['namespaces']
     classes.append({'n': 'P0', 'fields': [['x', I], ['s', U]]})
+    # a subclass whose name sorts before its parent's: only the dependency sort of the schema builder orders the two
+    # (and whose parent is referenced through the inheritance link alone)
+    classes.append({'n': 'Zbase', 'fields': [['k', I]]})
+    classes.append({'n': 'Aaa', 'base': 'Zbase', 'fields': [['extra', I]]})
     if nn >= 2:
         classes.append({'n': 'P1', 'ns': ns_of[1], 'fields': [['p0', ['c', 'P0', {}]], ['l', ['a', I, {}]]]})
     if nn >= 3:
@@ -70,7 +74,7 @@ def lattice_program(f):
     services = []
     for si in range(f['nserv']):
         a = {'n': 'a%d' % si, 'args': [['p', ['c', top, {}]]] + ([] if f['style'] == 'bare' else [['n', I]]), 'ret': ['c', top, {}], 'kw': {}}
-        b = {'n': 'b%d' % si, 'args': [['q', I], ['t', U]] + ([['hub', ['c', 'Hub', {}]]] if nn >= 3 else []), 'ret': U, 'kw': {}}
+        b = {'n': 'b%d' % si, 'args': [['q', I], ['t', U], ['sub', ['c', 'Aaa', {}]]] + ([['hub', ['c', 'Hub', {}]]] if nn >= 3 else []), 'ret': U, 'kw': {}}
         if f['style'] != 'wrapped':
             a['kw']['_body_style'] = f['style']
         if f['opname']:
@@ -373,12 +377,40 @@ def run_shard(shard, only=None):
             b2, app2, w2 = build_wsdl(program, f['proto'])
             if w2 != w:
                 V('nondeterministic-in-process', '', 'two builds of the same application in one process differ (%d vs %d bytes)' % (len(w), len(w2)))
+            # the same Application object publishing again (another transport), also after its validation schema was built
+            w3 = drv.published_wsdl(app)
+            if w3 != w:
+                V('nondeterministic-rebuild', 'second-transport', 'the second WSDL built from the same Application object differs from the first (%d vs %d bytes)' % (len(w), len(w3)))
+            try:
+                from spyne.interface.xml_schema import XmlSchema
+                xs = XmlSchema(app.interface)
+                xs.build_validation_schema()
+            except Exception as e:
+                V('validation-schema', type(e).__name__, 'the validation schema of the application cannot be built: %r' % (e,))
+            # fresh document objects over the same interface (what every transport and the lxml validator make)
+            try:
+                from spyne.interface.wsdl import Wsdl11
+                url = etree.fromstring(w).find('.//{http://schemas.xmlsoap.org/wsdl/soap/}address')
+                url = url.get('location') if url is not None else etree.fromstring(w).find('.//{http://schemas.xmlsoap.org/wsdl/soap12/}address').get('location')
+                for rep in (1, 2):
+                    doc = Wsdl11(app.interface)
+                    doc.build_interface_document(url)
+                    wd = doc.get_interface_document()
+                    if wd != w:
+                        V('nondeterministic-rebuild', 'fresh-document-object', 'build #%d of a fresh Wsdl11 document over the same interface differs from the published WSDL (%d vs %d bytes)' % (
+                            rep + 1, len(wd), len(w)))
+                        break
+            except Exception as e:
+                V('rebuild-raises', type(e).__name__, 'building a second WSDL document from the same interface raised %r' % (e,))
+            w4 = drv.published_wsdl(app)
+            if w4 != w:
+                V('nondeterministic-rebuild', 'after-validation-schema', 'the WSDL built after the validation schema differs from the first (%d vs %d bytes)' % (len(w), len(w4)))
             tv = top_value(top)
             values = {}
             for s in program['services']:
                 a, bm = s['methods']
                 values[a['n']] = ([tv] if f['style'] == 'bare' else [tv, 7], tv, None)
-                values[bm['n']] = ([3, 'text'] + ([Obj('Hub', q0=Obj('Q0', v=1), q1=None, q2=Obj('Q2', v=2), q3=None, p2=None)] if f['namespaces'] >= 3 else []), 'reply é', None)
+                values[bm['n']] = ([3, 'text', Obj('Aaa', k=1, extra=2)] + ([Obj('Hub', q0=Obj('Q0', v=1), q1=None, q2=Obj('Q2', v=2), q3=None, p2=None)] if f['namespaces'] >= 3 else []), 'reply é', None)
                 if a.get('throws'):
                     values[a['n'] + '!'] = None
             zv = dict((k, v) for k, v in values.items() if v is not None)
